@@ -21,11 +21,10 @@ theorem prepare_sorted_eq (off : Nat) (W : Mat) (locks : List Bool) :
     (prepare off W locks).sorted
       = (prepare off W locks).sortIdx.map (fun i => (idle W locks).getD i []) := rfl
 
-theorem prepare_sortIdx_perm (off : Nat) (W : Mat) (locks : List Bool) :
-    (prepare off W locks).sortIdx.Perm (List.range (idle W locks).length) := by
-  simp only [prepare]
-  generalize (off - ((locks.take off).filter (fun b => b)).length) = o
-  generalize idle W locks = N
+theorem sortIdx_perm_aux (o : Nat) (N : Mat) :
+    (argsort ((N.take o).map (fun r => (firstPos r : Int)))
+      ++ (argsort ((N.drop o).map (fun r => -(firstPos r.reverse : Int)))).map (fun i => i + o)).Perm
+      (List.range N.length) := by
   have h1 := argsort_perm ((N.take o).map (fun r => (firstPos r : Int)))
   have h2 := (argsort_perm ((N.drop o).map (fun r => -(firstPos r.reverse : Int)))).map (fun i => i + o)
   simp only [List.length_map, List.length_take, List.length_drop] at h1 h2
@@ -40,5 +39,9 @@ theorem prepare_sortIdx_perm (off : Nat) (W : Mat) (locks : List Bool) :
     have : N.length - o = 0 := by omega
     rw [this]
     simp
+
+theorem prepare_sortIdx_perm (off : Nat) (W : Mat) (locks : List Bool) :
+    (prepare off W locks).sortIdx.Perm (List.range (idle W locks).length) :=
+  sortIdx_perm_aux _ _
 
 end Infretis.Perm
